@@ -172,6 +172,8 @@ type vf29World struct {
 	// container nodes (local node first when it belongs to the container)
 	localInContainer bool
 	localLast        bool // local node is the last one of every node list
+	// fault: the container-membership (netmap) lookup of the local node fails
+	memberLookupFails bool
 	ecRules          []iec.Rule
 	repRules         []uint
 
@@ -245,7 +247,13 @@ func (c vf29Chain) NetMap() (*netmap.NetMap, error) {
 	return &nm, nil
 }
 func (c vf29Chain) GetNetMapByEpoch(uint64) (*netmap.NetMap, error) { return c.NetMap() }
-func (c vf29Chain) ServerInContainer(cid.ID) (bool, error)           { return c.w.localInContainer, nil }
+func (c vf29Chain) ServerInContainer(cid.ID) (bool, error) {
+	if c.w.memberLookupFails {
+		c.w.log.add(vf29Event{Kind: "read", What: "netmap.ServerInContainer", Result: "error"})
+		return false, errors.New("vf29: netmap unavailable")
+	}
+	return c.w.localInContainer, nil
+}
 func (c vf29Chain) GetEpochBlock(uint64) (uint32, error)             { return 1, nil }
 func (c vf29Chain) GetEpochBlockByTime(uint32) (uint32, error)       { return 1, nil }
 func (c vf29Chain) Now() time.Time                                   { return c.w.now }
